@@ -64,6 +64,8 @@ class ParseType(IoContract):
 
 
 class EncodeTree(IoContract):
+    """assumed (the codec dispatch and the container codecs behind it are covered by the codec contracts and the bounded
+    stand-in): _encode_tree appends enc_tree(value, tree) or raises according to enc_exc(value, tree)"""
     target = "serialization.py::Serialization._encode_tree"
     props = ()
     assumed = True
@@ -82,6 +84,8 @@ class EncodeTree(IoContract):
 
 
 class DecodeTree(IoContract):
+    """assumed likewise: _decode_tree returns dec_tree(remaining bytes, tree, resolver), consumes dec_len(...) bytes, or raises
+    according to dec_exc(...); it never returns an UnknownData"""
     target = "serialization.py::Serialization._decode_tree"
     props = ()
     assumed = True
